@@ -104,3 +104,122 @@ def make_res(**kw):
 
 def make_req(**kw):
     return LogReqWorld(**kw)
+
+
+# ---------------------------------------------------------------------------------------------------
+# end-to-end cross-check: a scenario loaded by load_scenario (handlers installed by the library itself), run linearly
+
+
+def linear_cross_check(scenario: str, nsteps: int):
+    """returns (stats dict, list of (clause, message)); whole-run sums of the written event.log vs the final state"""
+    import glob
+    import json as _json
+
+    from nrel.hive.app import hive_cosim
+
+    from . import scenarios
+    from .scen import load, write_global_config
+
+    d = scratch_dir("hivemc_c19lin_")
+    bad = []
+    try:
+        builder, _ = scenarios.BUILDERS[scenario]
+        path = builder(d)
+        write_global_config(d, log_events=True, log_stats=True)
+        rp = load(path)
+        odo0 = {vid: v.distance_traveled_km for vid, v in rp.s.vehicles.items()}
+        for _ in range(nsteps):
+            rp = hive_cosim.crank(rp, 1).runner_payload
+        from .scen import in_dir, quiet_stdout
+
+        with in_dir(d), quiet_stdout():
+            hive_cosim.close(rp)
+        logs = glob.glob(os.path.join(d, "out", "*", "event.log"))
+        if len(logs) != 1:
+            return {"lines": 0}, [("no_event_log", f"expected one event.log, found {logs}")]
+        lines = []
+        for i, ln in enumerate(open(logs[0])):
+            try:
+                lines.append(_json.loads(ln))
+            except Exception as e:
+                bad.append(("unparseable_line", f"{scenario}: line {i+1} of event.log: {e}"))
+        by = {}
+        for ln in lines:
+            by.setdefault(ln["report_type"], []).append(ln)
+        for vid, v in rp.s.vehicles.items():
+            dist = sum(float(m["distance_km"]) for m in by.get("vehicle_move_event", []) if m["vehicle_id"] == vid)
+            if abs(dist - (v.distance_traveled_km - odo0[vid])) > 1e-6:
+                bad.append(("move_vs_odometer", f"{scenario}: vehicle {vid}: move lines sum to {dist}, odometer {v.distance_traveled_km - odo0[vid]}"))
+            en = sum(float(c["energy"]) for c in by.get("vehicle_charge_event", []) if c["vehicle_id"] == vid)
+            if abs(en - sum(v.energy_gained.values())) > 1e-6:
+                bad.append(("charge_vs_gained", f"{scenario}: vehicle {vid}: charge lines sum to {en}, energy gained {sum(v.energy_gained.values())}"))
+        # one block of lines per flush (= per step): the station_load lines come first, then that step's events
+        nst0 = len(rp.s.stations)
+        blocks, cur, nloads = [], [], 0
+        for ln in lines:
+            if ln["report_type"] == "station_load_event":
+                if nloads >= nst0 or (cur and cur[-1]["report_type"] != "station_load_event"):
+                    blocks.append(cur)
+                    cur, nloads = [], 0
+                nloads += 1
+            cur.append(ln)
+        if cur:
+            blocks.append(cur)
+        if len(blocks) != nsteps:
+            bad.append(("flush_blocks", f"{scenario}: {len(blocks)} blocks of lines for {nsteps} steps"))
+        for bi, blk in enumerate(blocks):
+            per, loads = {}, {}
+            for ln in blk:
+                if ln["report_type"] == "vehicle_charge_event":
+                    per[ln["station_id"]] = per.get(ln["station_id"], 0.0) + float(ln["energy"])
+                elif ln["report_type"] == "station_load_event":
+                    loads[ln["station_id"]] = loads.get(ln["station_id"], 0.0) + float(ln["energy"])
+            for sid in set(per) | set(loads):
+                if abs(per.get(sid, 0.0) - loads.get(sid, 0.0)) > 1e-6:
+                    bad.append(("station_load", f"{scenario}: step #{bi+1}, station {sid}: reported load {loads.get(sid)}, charge lines there sum to {per.get(sid, 0.0)}"))
+        nst = len(rp.s.stations)
+        if len(by.get("station_load_event", [])) != nst * nsteps:
+            bad.append(("station_load_lines", f"{scenario}: {len(by.get('station_load_event', []))} station_load lines for {nst} stations x {nsteps} steps"))
+        summ = glob.glob(os.path.join(d, "out", "*", "summary_stats.json"))
+        stats = rp.e.reporter.get_summary_stats(rp) or {}
+        nadd, ncancel = len(by.get("add_request_event", [])), len(by.get("cancel_request_event", []))
+        handler = [h for h in rp.e.reporter.handlers if h.__class__.__name__ == "StatsHandler"]
+        if handler:
+            if handler[0].stats.requests != nadd or handler[0].stats.cancelled_requests != ncancel:
+                bad.append(("summary_counts", f"{scenario}: summary counts ({handler[0].stats.requests}, {handler[0].stats.cancelled_requests}) vs log ({nadd}, {ncancel})"))
+        if summ:
+            on_disk = _json.load(open(summ[0]))
+            if abs(on_disk.get("total_vkt", 0) - stats.get("total_vkt", 0)) > 1e-9:
+                bad.append(("summary_file", f"{scenario}: summary_stats.json total_vkt {on_disk.get('total_vkt')} vs {stats.get('total_vkt')}"))
+        # resolved requests: one pickup or cancel line each, no request twice
+        seen = {}
+        for ln in by.get("pickup_request_event", []) + by.get("cancel_request_event", []):
+            seen[ln["request_id"]] = seen.get(ln["request_id"], 0) + 1
+        for rid, n in seen.items():
+            if n != 1:
+                bad.append(("resolution_lines", f"{scenario}: request {rid} has {n} pickup/cancel lines"))
+        timeout = rp.e.config.sim.request_cancel_time_seconds
+        step = rp.e.config.sim.timestep_duration_seconds
+        from .monitors import _hms
+
+        for p in by.get("pickup_request_event", []):
+            w = _hms(p.get("wait_time_seconds", ""))
+            if w is None or not (0 <= w <= timeout + step):
+                bad.append(("wait_time_range", f"{scenario}: pickup of {p['request_id']}: wait {p.get('wait_time_seconds')}"))
+        return {"lines": len(lines), "moves": len(by.get("vehicle_move_event", [])), "charges": len(by.get("vehicle_charge_event", [])),
+                "pickups": len(by.get("pickup_request_event", [])), "cancels": ncancel, "adds": nadd}, bad
+    finally:
+        shutil.rmtree(d, ignore_errors=True)
+
+
+def replay(body) -> int:
+    rp = body["replay"]
+    stats, bad = linear_cross_check(rp["scenario"], rp["steps"])
+    print(stats)
+    for clause, msg in bad[:10]:
+        print(clause, "::", msg)
+    if bad:
+        print(f"VIOLATION property=C19 replay={body.get('_path')}")
+        return 1
+    print("not reproduced on this tree")
+    return 0
